@@ -338,9 +338,25 @@ def rule_permexh(ctx):
             def single_source(z):
                 return z.op == "cmp" and z.a[0] == "==" and any(tm.is_const(y, 1) for y in z.a[1:]) and any(common.dim_of(y) is not None or (y.op == "call" and call_name(y) == "builtins.len") for y in z.a[1:])
 
+            def disjuncts(cc, p):
+                """the alternatives of a condition that holds as a disjunction: `a or b` true, `a and b` false"""
+                if p and cc.op == "bool" and cc.a[0] == "or":
+                    return [(z, True) for z in cc.a[1:]]
+                if (not p) and cc.op == "bool" and cc.a[0] == "and":
+                    return [(z, False) for z in cc.a[1:]]
+                return None
+
+            def lit_is(z, pol, test):
+                while z.op == "un" and z.a[0] == "not":
+                    z, pol = z.a[1], not pol
+                return test(z, pol)
+
+            no_perm = lambda z, pol: z.op == "param" and z.a[0] == "compute_permutation" and not pol
+            one_src = lambda z, pol: (single_source(z) and pol) or (z.op == "cmp" and z.a[0] == "!=" and (not pol) and single_source(tm.cmp("==", z.a[1], z.a[2])))
             for r in rets:
                 for cc, p in symeval.pc_conds(r.pc):
-                    if p and cc.op == "bool" and cc.a[0] == "or" and any(z.op == "un" and z.a[0] == "not" and z.a[1].op == "param" and z.a[1].a[0] == "compute_permutation" for z in cc.a[1:]) and all(single_source(z) or (z.op == "un" and z.a[0] == "not" and z.a[1].op == "param") for z in cc.a[1:]):
+                    ds = disjuncts(cc, p)
+                    if ds and any(lit_is(z, q_, no_perm) for z, q_ in ds) and all(lit_is(z, q_, no_perm) or lit_is(z, q_, one_src) for z, q_ in ds):
                         noperm_ret.append(r)
         good = len(perm_ret) == 1 and len(noperm_ret) == 1
         if good:
